@@ -387,3 +387,25 @@ def best_stream(data, modes, cap, prefix=None, budget=400000):
 def _ascii_finishes(data, i, rem):
     """can the rest of the data from i be written in at most `rem` ASCII codewords?"""
     return len(ascii_items(data[i:])) <= rem
+
+
+def ab_bound(data):
+    """length of a shortest stream that uses only ASCII codewords and Base256 fields with explicit length (an upper bound
+    for the minimal length whenever both modes are enabled); O(n^2)"""
+    n = len(data)
+    INF = 10 ** 9
+    A = [INF] * (n + 1)
+    A[0] = 0
+    for i in range(1, n + 1):
+        b = data[i - 1]
+        best = A[i - 1] + (1 if b < 128 else 2)
+        if i >= 2 and 48 <= data[i - 2] <= 57 and 48 <= b <= 57:
+            best = min(best, A[i - 2] + 1)
+        lo = max(0, i - 1555)
+        for j in range(lo, i):
+            ln = i - j
+            c = A[j] + 1 + (1 if ln <= 249 else 2) + ln
+            if c < best:
+                best = c
+        A[i] = best
+    return A[n]
